@@ -55,7 +55,18 @@ def generator_suite(chk, w, rule, maxlen, orders=(0, 1, 2), ns=None, fixed=True)
                               d["rtype"], required=False)
                 if fg is None:
                     continue
+                del w.I.divzero[:]
                 o3 = w.call(fg, gen, [])
+                dz = list(w.I.divzero)
+                if dz and dz[0] is not None:
+                    site = w.free(dz[0][1], lambda f, q=dz[0][2]: f.qn == q, required=False) or fg
+                    cs.expect(site, "no division by an exactly-zero value on valid input (an exact field type has no "
+                                    "infinity: the zero-width guards must precede the division)",
+                              dict(case, order=p, line=dz[0][3]), None, False, "every division has a non-zero divisor")
+                else:
+                    cs.expect(fg, "no division by an exactly-zero value on valid input (an exact field type has no "
+                                  "infinity: the zero-width guards must precede the division)", dict(case, order=p), None,
+                              True, "every division has a non-zero divisor")
                 enough = L >= p + 1
                 if not enough:
                     ok = o3.throws_lib()
